@@ -38,7 +38,6 @@ text), tkey (path in the template, `*` for user-named sections), fault, ffam
 (fault family), kf = "tkey<-fault" (two of them joined by " & " for a double
 fault).
 """
-import copy
 import hashlib
 import logging
 import math
@@ -356,7 +355,6 @@ def kv_faults(e, ents, tier):
     kind, spec, tkey = spec_of(e['path'], e['k'])
     v = e['v']
     out = ['missing', 'dup', 'empty']
-    leaf = e['k']
     sibs = [x for x in ents if x['t'] == 'kv' and x['path'] == e['path']
             and x is not e]
     if kind in ('float', 'integer') or (kind == 'string' and fnum(v) is not None):
